@@ -129,3 +129,19 @@ prop("C05",
                 "assumed chunk-independent), termination of the charsUntil loop.",
      not_decided=["position()/_position arithmetic", "BufferedStream and byte-level decoding", "termination of charsUntil"],
      explanation="the stream class is proved against the same contract text the tokenizer proofs assume")
+
+
+prop("C02",
+     level="proof",
+     level_text="Per-state proofs: each tokenizer state method under contract, started from ANY remaining input and ANY token "
+                "under construction, performs the transition the WHATWG tokenization algorithm prescribes for that state "
+                "(next state, characters consumed or reconsumed, character data emitted -- compared after concatenation --, "
+                "tag token created/extended/emitted, fresh attribute lists), against the stream interface contract that C05 "
+                "proves of the real stream class. States under contract are listed in the evidence "
+                "(functions_under_contract); the others are NOT decided.",
+     level_note="Trusted: pyvc, z3; the transcription of the standard's per-state rules into contracts/tokenizer_states.py; "
+                "the stream contract (C05). Not under contract in this revision: the comment, doctype, script-data-escape, "
+                "CDATA and markup-declaration states; __iter__ (queue draining). Lower-casing at emission and duplicate "
+                "attributes are emitCurrentToken's contract.",
+     not_decided=["comment / doctype / script-data escape / CDATA / markup-declaration states", "HTMLTokenizer.__iter__"],
+     explanation="state-by-state contracts against the standard, modular over the stream contract")
